@@ -135,9 +135,14 @@ func c10(c *core.Ctx) string {
 
 // c10retry holds the resolved roles of the closure returned by RetryPolicy.Wrap.
 type c10retry struct {
-	f       *flow.Func   // RetryPolicy.Wrap
-	lit     *ast.FuncLit // the returned closure
-	lf      *flow.Func
+	f       *flow.Func     // the declared function that contains the unit (RetryPolicy.Wrap, or the method the closure became)
+	lit     *ast.FuncLit   // the unit when it is a closure (nil when it is a declared method)
+	lf      *flow.Func     // the unit: the function that runs the attempt loop
+	body    *ast.BlockStmt // the unit's body
+	ftype   *ast.FuncType  // the unit's signature
+	fs      []*flow.Func   // the unit and the same-package helpers it calls
+	cset    c10flowSet     // the variables / parameters holding the unit's ctx
+	hset    c10flowSet     // the variables / parameters / fields holding the wrapped handler
 	cons    string
 	handler types.Object // the wrapped handler (parameter of Wrap)
 	ctx     types.Object // the closure's context parameter
@@ -160,28 +165,28 @@ func c10Retry(c *core.Ctx) {
 		c.Errorf("R-C10-1: anchor: RetryPolicy.Wrap has no named handler parameter of type func(context.Context) error")
 		return
 	}
-	r.pm = parentMap(f.Body)
-	// subject: the calls of the handler parameter
+	// subject: the invocations of the wrapped handler. It may be called by the closure Wrap returns, or
+	// - when that closure was turned into a method - through a struct field / a parameter it was handed to
+	all := c10reachRefs(f, 3)
+	r.hset = c10flow(f, all, r.handler)
+	pmAll := map[ast.Node]ast.Node{}
+	for _, g := range all {
+		for k, v := range parentMap(g.Body) {
+			pmAll[k] = v
+		}
+	}
+	var unitBody *ast.BlockStmt
 	var outside []*ast.CallExpr
-	for _, call := range calls(f.Body, true) {
-		if id := c10ident(call.Fun); id != nil && c10obj(f, id) == r.handler {
-			lit := c10enclosingLit(r.pm, call)
-			if lit == nil {
-				outside = append(outside, call)
+	for _, g := range all {
+		for _, call := range calls(g.Body, true) {
+			if !r.hset.holds(f, call.Fun) {
 				continue
 			}
-			// outermost literal
-			for {
-				up := c10enclosingLit(r.pm, lit)
-				if up == nil {
-					break
-				}
-				lit = up
+			eg, body, typ, lit := c10enclosingFunc(all, call)
+			if unitBody == nil {
+				unitBody, r.f, r.body, r.ftype, r.lit = body, eg, body, typ, lit
 			}
-			if r.lit == nil {
-				r.lit = lit
-			}
-			if lit == r.lit && c10enclosingLit(r.pm, call) == lit {
+			if body == unitBody {
 				r.calls = append(r.calls, call)
 			} else {
 				outside = append(outside, call)
@@ -191,39 +196,68 @@ func c10Retry(c *core.Ctx) {
 	if !c.RequireCount("R-C10-1", "handler call sites in the closure returned by RetryPolicy.Wrap", len(r.calls), 1) {
 		return
 	}
-	r.lf = f.Lit(r.lit)
-	r.ctx = c10paramObj(f, r.lit.Type, 0)
-	if r.ctx == nil || !c10isCtxType(r.ctx.Type()) {
-		c.Errorf("R-C10-1: anchor: the retry closure has no named context.Context parameter")
+	f = r.f
+	r.pm = parentMap(f.Body)
+	if r.lit != nil {
+		r.lf = f.Lit(r.lit)
+	} else {
+		r.lf = f
+	}
+	r.fs = reach(r.lf, 3)
+	for i := 0; i < 4; i++ {
+		if o := c10paramObj(f, r.ftype, i); o != nil && c10isCtxType(o.Type()) && r.ctx == nil {
+			r.ctx = o
+		}
+	}
+	if r.ctx == nil {
+		c.Errorf("R-C10-1: anchor: the function running the retry loop has no named context.Context parameter")
 		return
 	}
+	r.cset = c10flow(f, r.fs, r.ctx)
 
-	// every use of the handler is one of those calls (it does not escape to a goroutine, a
-	// nested closure or another function where attempts would not be counted)
+	// every use of the handler value is one of those calls or hands it on to where they are (a
+	// parameter, a struct field): it does not escape to a goroutine or to code where attempts
+	// would not be counted
 	var escapeAt ast.Node
-	ast.Inspect(f.Body, func(n ast.Node) bool {
-		id, ok := n.(*ast.Ident)
-		if !ok || c10obj(f, id) != r.handler {
+	for _, g := range all {
+		ast.Inspect(g.Body, func(n ast.Node) bool {
+			id, ok := n.(*ast.Ident)
+			if !ok || !r.hset[f.Info.Uses[id]] {
+				return true
+			}
+			var e ast.Expr = id
+			if sel, ok := pmAll[id].(*ast.SelectorExpr); ok && sel.Sel == id {
+				e = sel
+			}
+			switch par := pmAll[e].(type) {
+			case *ast.CallExpr:
+				if par.Fun == e {
+					return true // an invocation (counted or reported above)
+				}
+				if fo, ok := f.Callee(par).(*types.Func); ok && fo.Pkg() == f.Pkg.Types && declOf(f.Pkg, fo) != nil {
+					if _, isGo := pmAll[par].(*ast.GoStmt); !isGo {
+						return true // handed to a same-package function: followed by the flow set
+					}
+				}
+			case *ast.KeyValueExpr, *ast.AssignStmt, *ast.ValueSpec:
+				return true
+			}
+			escapeAt = id
 			return true
-		}
-		if call, ok := r.pm[id].(*ast.CallExpr); ok && call.Fun == id {
-			return true
-		}
-		escapeAt = id
-		return true
-	})
+		})
+	}
 	for _, o := range outside {
 		escapeAt = o
 	}
 	c.Check(escapeAt == nil, "R-C10-1", r.cons+"|handler only called by the attempt loop", pos(c, r.calls[0]),
-		sprintf("%d handler call site(s), all directly in the returned closure; the handler value is not used otherwise", len(r.calls)),
+		sprintf("%d handler call site(s), all in the function that runs the attempt loop; the handler value is not used otherwise", len(r.calls)),
 		"the wrapped handler is called or passed on outside the counted attempt loop: such attempts are not bounded by MaxAttempts", pos(c, escapeAt))
 
 	// the loop
 	var loops []ast.Stmt
 	sameLoop := true
 	for i, call := range r.calls {
-		ls := enclosingLoops(r.lit.Body, call)
+		ls := enclosingLoops(r.body, call)
 		if i == 0 {
 			loops = ls
 		} else if len(ls) != len(loops) || (len(ls) > 0 && ls[len(ls)-1] != loops[len(loops)-1]) {
@@ -264,7 +298,7 @@ func c10Retry(c *core.Ctx) {
 	}
 	// the outcome variable carries nothing but the handler's result
 	var foreign ast.Node
-	for _, w := range c10writes(f, r.lit, r.resVar) {
+	for _, w := range c10writes(f, r.body, r.resVar) {
 		switch {
 		case w.rhs == nil && w.tok == token.VAR && w.src == nil: // var err error
 		case w.rhs != nil && f.Info.Types[w.rhs].IsNil():
@@ -353,7 +387,7 @@ func c10LoopBound(c *core.Ctx, r *c10retry) {
 	undecided := ""
 	for _, s := range cand {
 		ctr := c10obj(f, s.ctr)
-		ws := c10writes(f, r.lit, ctr)
+		ws := c10writes(f, r.body, ctr)
 		// exactly one initialisation (before the loop / in its init statement); every other
 		// write is a unit step executed in the loop (post statement, or a statement of the body
 		// — `for ctr < Max { ...; ctr++ }`); that exactly one step separates two attempts on
@@ -551,10 +585,21 @@ func c10RetryFlow(c *core.Ctx, r *c10retry, foreign ast.Node) {
 		}
 		return nil
 	}
-	ast.Inspect(r.lit.Body, func(n ast.Node) bool {
+	inspectUnit := func(visit func(g *flow.Func, n ast.Node) bool) {
+		ast.Inspect(r.body, func(n ast.Node) bool { return n == nil || visit(r.lf, n) })
+		for _, g := range r.fs[1:] {
+			g := g
+			ast.Inspect(g.Body, func(n ast.Node) bool { return n == nil || visit(g, n) })
+		}
+	}
+	inspectUnit(func(g *flow.Func, n ast.Node) bool {
 		sel, ok := n.(*ast.SelectStmt)
 		if !ok {
 			return true
+		}
+		root := ast.Node(f.Body)
+		if g != r.lf {
+			root = g.Body
 		}
 		for _, cl := range sel.Body.List {
 			cc := cl.(*ast.CommClause)
@@ -568,12 +613,13 @@ func c10RetryFlow(c *core.Ctx, r *c10retry, foreign ast.Node) {
 			if ch == nil {
 				continue
 			}
-			ch = c10alias(f, f.Body, ch)
+			ch = c10alias(f, root, ch)
 			switch x := ast.Unparen(ch).(type) {
 			case *ast.CallExpr:
 				switch calleeFull(f, x) {
 				case "(context.Context).Done":
-					if id := c10ident(c10recv(x)); id != nil && c10obj(f, id) == r.ctx {
+					// on the unit's ctx, or on the parameter of a helper (sleep(ctx, d)) that receives it
+					if r.cset.holds(f, c10recv(x)) {
 						k.kind = "done"
 					}
 				case "time.After":
@@ -584,7 +630,7 @@ func c10RetryFlow(c *core.Ctx, r *c10retry, foreign ast.Node) {
 			case *ast.SelectorExpr:
 				// timer.C with timer := time.NewTimer(d), possibly inline time.NewTimer(d).C
 				if x.Sel.Name == "C" {
-					if call, ok := ast.Unparen(c10alias(f, f.Body, x.X)).(*ast.CallExpr); ok && calleeFull(f, call) == "time.NewTimer" && len(call.Args) == 1 {
+					if call, ok := ast.Unparen(c10alias(f, root, x.X)).(*ast.CallExpr); ok && calleeFull(f, call) == "time.NewTimer" && len(call.Args) == 1 {
 						k.kind, k.dur = "timer", call.Args[0]
 					}
 				}
@@ -611,6 +657,45 @@ func c10RetryFlow(c *core.Ctx, r *c10retry, foreign ast.Node) {
 	}
 	slice := map[types.Object]bool{}
 	reachesWD := false
+	// a parameter of a helper of the unit gets its value from the arguments at the helper's call sites
+	type site struct {
+		arg  ast.Expr
+		root ast.Node
+	}
+	paramSites := map[types.Object][]site{}
+	inspectUnit(func(g *flow.Func, n ast.Node) bool {
+		call, ok := n.(*ast.CallExpr)
+		if !ok {
+			return true
+		}
+		fo, ok := f.Callee(call).(*types.Func)
+		if !ok || fo.Pkg() != f.Pkg.Types {
+			return true
+		}
+		fd := declOf(f.Pkg, fo)
+		if fd == nil || fd.Type.Params == nil {
+			return true
+		}
+		root := ast.Node(f.Body)
+		if g != r.lf {
+			root = g.Body
+		}
+		k := 0
+		for _, fld := range fd.Type.Params.List {
+			if len(fld.Names) == 0 {
+				k++
+				continue
+			}
+			for _, name := range fld.Names {
+				if k < len(call.Args) {
+					o := f.Info.Defs[name]
+					paramSites[o] = append(paramSites[o], site{call.Args[k], root})
+				}
+				k++
+			}
+		}
+		return true
+	})
 	// visit follows values backwards: locals through their writes (searched under root), calls
 	// of same-package functions through the callee's return expressions and from there to the
 	// arguments of exactly those parameters the result depends on (`wait := p.randomize(base)`)
@@ -681,6 +766,9 @@ func c10RetryFlow(c *core.Ctx, r *c10retry, foreign ast.Node) {
 					return true
 				}
 				slice[v] = true
+				for _, ps := range paramSites[v] {
+					visit(ps.arg, ps.root, depth)
+				}
 				for _, w := range c10writes(f, root, v) {
 					if w.rhs != nil {
 						visit(w.rhs, root, depth)
@@ -810,6 +898,7 @@ func c10RetryFlow(c *core.Ctx, r *c10retry, foreign ast.Node) {
 	)
 	res := analyze(c, lf, flow.Config{
 		NoHavoc: true,
+		Inline:  inlineSamePkg(lf),
 		OnCall: func(st *flow.State, call *ast.CallExpr, callee types.Object, deferred bool) {
 			if isAttempt[call] {
 				st.Set(evAttempted, flow.True)
@@ -857,11 +946,12 @@ func c10RetryFlow(c *core.Ctx, r *c10retry, foreign ast.Node) {
 
 	// does the closure consult ctx.Err() (an idiom this rule does not model)?
 	usesCtxErr := false
-	for _, call := range calls(r.lit.Body, true) {
-		if calleeFull(f, call) == "(context.Context).Err" {
+	inspectUnit(func(g *flow.Func, n ast.Node) bool {
+		if call, ok := n.(*ast.CallExpr); ok && calleeFull(f, call) == "(context.Context).Err" {
 			usesCtxErr = true
 		}
-	}
+		return true
+	})
 
 	type finding struct {
 		st  *flow.State
@@ -980,8 +1070,8 @@ func c10RetryFlow(c *core.Ctx, r *c10retry, foreign ast.Node) {
 		switch {
 		case len(ex.Return.Results) == 1:
 			ret = ast.Unparen(ex.Return.Results[0])
-		case len(ex.Return.Results) == 0 && r.lit.Type.Results != nil && len(r.lit.Type.Results.List) == 1 && len(r.lit.Type.Results.List[0].Names) == 1:
-			ret = r.lit.Type.Results.List[0].Names[0] // bare return of the named result
+		case len(ex.Return.Results) == 0 && r.ftype.Results != nil && len(r.ftype.Results.List) == 1 && len(r.ftype.Results.List[0].Names) == 1:
+			ret = r.ftype.Results.List[0].Names[0] // bare return of the named result
 		default:
 			continue
 		}
@@ -1012,7 +1102,7 @@ func c10RetryFlow(c *core.Ctx, r *c10retry, foreign ast.Node) {
 			okCtx, badCtx = false, call
 		}
 	}
-	if ws := c10writes(f, r.lit, r.ctx); len(ws) > 0 {
+	if ws := c10writes(f, r.body, r.ctx); len(ws) > 0 {
 		okCtx, badCtx = false, ws[0].at
 	}
 	c.Check(okCtx, "R-C10-2", r.cons+"|ctx passed to the handler", pos(c, r.calls[0]),
@@ -1190,30 +1280,85 @@ func c10BreakerCtxOne(c *core.Ctx, f *flow.Func) {
 		c.Errorf("R-C10-2: anchor: %s has no named handler parameter", cons)
 		return
 	}
-	pm := parentMap(f.Body)
+	// the wrapped handler may be called by the returned closure, by a method the closure delegates to
+	// (handler passed as a parameter) or by a method of a struct that holds it in a field
+	fs := c10reachRefs(f, 3)
+	hset := c10flow(f, fs, h)
 	n := 0
 	ok := true
 	var at ast.Node = f.Body
-	for _, call := range calls(f.Body, true) {
-		if id := c10ident(call.Fun); id == nil || c10obj(f, id) != h {
-			continue
-		}
-		n++
-		at = call
-		lit := c10enclosingLit(pm, call)
-		if lit == nil {
-			ok = false
-			continue
-		}
-		ctx := c10paramObj(f, lit.Type, 0)
-		if ctx == nil || len(call.Args) != 1 || c10ident(call.Args[0]) == nil || c10obj(f, c10ident(call.Args[0])) != ctx || len(c10writes(f, lit, ctx)) > 0 {
-			ok = false
+	for _, g := range fs {
+		for _, call := range calls(g.Body, true) {
+			if !hset.holds(f, call.Fun) {
+				continue
+			}
+			n++
+			at = call
+			if len(call.Args) != 1 || !c10ownCtx(f, fs, call, call.Args[0], 0) {
+				ok = false
+			}
 		}
 	}
 	if !c.RequireCount("R-C10-2", "handler call sites in circuitBreakerWrapper.Wrap", n, 1) {
 		return
 	}
 	c.Check(ok, "R-C10-2", cons+"|ctx passed to the handler", pos(c, at),
-		"the inner handler receives the closure's own ctx parameter",
+		"the inner handler receives the ctx parameter of the function the wrapper returns",
 		"the circuit-breaker wrapper does not hand its ctx parameter to the inner handler: the retry loop inside it no longer sees the client's cancellation")
+}
+
+// c10ownCtx reports whether arg (an argument of a call at node `at`) is the unmodified context
+// parameter of the enclosing function and, when that function is not itself a handler
+// (func(context.Context) error) but a helper, whether every call of the helper in fs hands it its
+// own enclosing function's context parameter in turn.
+func c10ownCtx(f *flow.Func, fs []*flow.Func, at ast.Node, arg ast.Expr, depth int) bool {
+	_, body, typ, _ := c10enclosingFunc(fs, at)
+	id := c10ident(arg)
+	if body == nil || typ == nil || id == nil || depth > 3 {
+		return false
+	}
+	// the context parameter of the enclosing function
+	var ctxP types.Object
+	idx, nparams := -1, 0
+	if typ.Params != nil {
+		for _, fld := range typ.Params.List {
+			names := fld.Names
+			if len(names) == 0 {
+				nparams++
+				continue
+			}
+			for _, name := range names {
+				if o := f.Info.Defs[name]; o != nil && c10isCtxType(o.Type()) && ctxP == nil {
+					ctxP, idx = o, nparams
+				}
+				nparams++
+			}
+		}
+	}
+	if ctxP == nil || c10obj(f, id) != ctxP || len(c10writes(f, body, ctxP)) > 0 {
+		return false
+	}
+	if nparams == 1 && typ.Results != nil && len(typ.Results.List) == 1 && len(typ.Results.List[0].Names) <= 1 {
+		if t := f.Info.TypeOf(typ.Results.List[0].Type); t != nil && types.Identical(t, types.Universe.Lookup("error").Type()) {
+			return true // the enclosing function is itself a handler: func(context.Context) error
+		}
+	}
+	// a helper: look at its callers
+	callers := 0
+	for _, g := range fs {
+		for _, call := range calls(g.Body, true) {
+			fo, ok := f.Callee(call).(*types.Func)
+			if !ok {
+				continue
+			}
+			if d := declOf(f.Pkg, fo); d == nil || d.Body != body {
+				continue
+			}
+			callers++
+			if idx >= len(call.Args) || !c10ownCtx(f, fs, call, call.Args[idx], depth+1) {
+				return false
+			}
+		}
+	}
+	return callers > 0
 }
